@@ -37,6 +37,7 @@ RULE = (
 def gen_case(rng, tier):
     prof = G.default_profile(rng, tier)
     prof["relaunch"] = rng.choice([0, 0, 0.2])
+    prof["switches"] = rng.choice([0, 0, 0, 0.3])  # two-way branches written as scf.index_switch
     prof["while_loops"] = rng.choice([0, 0, 0, 0.3])  # counted loops written as scf.while
     prof["memory"] = rng.choice([0, 0, 0, 0.4])  # some configuration values are kept in memory
     prof["state_loops"] = rng.choice([0, 0, 0.6])  # hand-threaded loops that already carry an accelerator's state ...
